@@ -50,6 +50,10 @@ def wireOp (op : String) (args : List String) : Option J :=
       pure (jres (fun o => match o with
         | none => .null
         | some (t, body, rest) => .arr [.nat t, J.ofBytes body, J.ofBytes rest]) (readPacket b))
+  | "readpackets", [h] => do
+      let b ← decBytes h
+      let r := readPackets (b.length + 1) b
+      pure (jok (.obj [("packets", .arr (r.1.map (fun p => .arr [.nat p.1, J.ofBytes p.2]))), ("end", match r.2 with | none => .null | some e => .str (exnName e).toList)]))
   | "readpacket1", [h] => do
       let b ← decBytes h
       pure (jres (fun o => match o with
